@@ -16,8 +16,10 @@ variable (L : Lattice)
 
 /-! ## 1. Table adequacy (decidable) -/
 
-/-- A class never makes `issubclass` raise, whatever the target. -/
-def rowTotal (r : Row) : Bool := !r.isClass || allTargets.all fun X => decide (r.sub.getD X.idx 2 ≤ 1)
+/-- A class (`isinstance(o, type)`) is a class for `inspect.isclass` and never makes `issubclass` raise, whatever
+    the target. -/
+def rowTotal (r : Row) : Bool :=
+  !r.isClass || (r.inspectIsClass && allTargets.all fun X => decide (r.sub.getD X.idx 2 ≤ 1))
 def rowsOk : Bool := L.rows.all rowTotal
 
 /-- A row's typing origin is a class that is its own origin. -/
@@ -96,7 +98,7 @@ def adequate : Bool := rowsOk L && originsOk L && gtmOk L && collectionsOk L && 
 /-- **The regenerated table is adequate** (re-decided on every run against `Gen/Lattice.lean`). -/
 theorem lattice_adequate : adequate Typelib.Gen.lattice = true := by decide +kernel
 
-theorem lattice_size : Typelib.Gen.lattice.rows.length = 164 ∧ Typelib.Gen.lattice.gtm.length = 18 := by decide +kernel
+theorem lattice_size : Typelib.Gen.lattice.rows.length = 166 ∧ Typelib.Gen.lattice.gtm.length = 18 := by decide +kernel
 
 
 /-! ## 2. Table lemmas -/
@@ -117,8 +119,21 @@ theorem tri_le_of_class (hA : rowsOk L = true) {i : Nat} (hc : L.isClass i = tru
     simp only [h] at hc ⊢
     have hr := (List.all_eq_true.mp hA) r (row_mem L h)
     unfold rowTotal at hr
-    simp only [hc, Bool.not_true, Bool.false_or, List.all_eq_true, decide_eq_true_eq] at hr
-    exact hr X (target_mem X)
+    simp only [hc, Bool.not_true, Bool.false_or, Bool.and_eq_true, List.all_eq_true, decide_eq_true_eq] at hr
+    exact hr.2 X (target_mem X)
+
+theorem class_inspect (hA : rowsOk L = true) {i : Nat} (hc : L.isClass i = true) :
+    L.flag (·.inspectIsClass) i = true := by
+  unfold Lattice.isClass Lattice.flag at hc
+  unfold Lattice.flag
+  cases h : L.row i with
+  | none => simp [h] at hc
+  | some r =>
+    simp only [h] at hc ⊢
+    have hr := (List.all_eq_true.mp hA) r (row_mem L h)
+    unfold rowTotal at hr
+    simp only [hc, Bool.not_true, Bool.false_or, Bool.and_eq_true] at hr
+    exact hr.1
 
 theorem triToOpt_of_le {t : Nat} (h : t ≤ 1) : triToOpt t = some (t == 1) := by
   match t, h with
@@ -160,13 +175,13 @@ theorem genericsStep_nonbase {a : Ann} (h : a.isBase = false) : genericsStep L a
   cases a <;> simp_all [checkGenerics, Ann.isBase]
 
 theorem callableStep_nonbase {a : Ann} (h : a.isBase = false) : callableStep L a = a := by
-  cases a <;> simp_all [callableStep, iscallableM, Ann.isBase]
+  cases a <;> simp_all [callableStep, toTypingCallable, Ann.isBase]
 
 theorem isBaseId_eq {a : Ann} {i : Nat} (h : a.isBaseId i = true) : a = .base i := by
   cases a <;> simp_all [Ann.isBaseId]
 
 
-/-! ## 3. `origin` on NewType* ∘ alias? chains -/
+/-! ## 3. `origin` on NewType / alias chains of any length and interleaving -/
 
 /-- Class-like cores: a base object or a subscripted generic (either spelling). -/
 def coreForm : Ann → Bool
@@ -174,10 +189,11 @@ def coreForm : Ann → Bool
   | .sub _ _ => true
   | _ => false
 
-/-- The chains `origin` resolves by itself: any number of NewTypes, then at most one alias, then a core. -/
+/-- NewType / alias chains of ANY length in ANY interleaving over a core — what `origin` resolves by itself
+    (`resolve_supertype`, then `while istypealiastype: resolve_supertype(value)`). -/
 def directOk : Ann → Bool
   | .newtype a => directOk a
-  | .alias a => coreForm a
+  | .alias a => directOk a
   | a => coreForm a
 
 theorem strip_core {a : Ann} (h : coreForm a = true) : strip a = a := by
@@ -192,16 +208,29 @@ theorem getOriginOr_core {a : Ann} (h : coreForm a = true) {c0 : Nat} (ht : tyOr
 
 theorem originM_core {a : Ann} (h : coreForm a = true) {c0 : Nat} (ht : tyOrigin L a = some c0) :
     originM L a = callableStep L (genericsStep L (.base c0)) := by
-  have : aliasValue (classVarArg L (resolveSupertype a)) = a := by
-    cases a <;> simp_all [coreForm, resolveSupertype, classVarArg, aliasValue]
+  have : aliasLoop (classVarArg L (resolveSupertype a)) = a := by
+    cases a <;> simp_all [coreForm, resolveSupertype, classVarArg, aliasLoop]
   unfold originM
   rw [this, getOriginOr_core L h ht]
 
-theorem originM_alias_core {a : Ann} (h : coreForm a = true) {c0 : Nat} (ht : tyOrigin L a = some c0) :
-    originM L (.alias a) = callableStep L (genericsStep L (.base c0)) := by
-  unfold originM
-  simp only [resolveSupertype, classVarArg, aliasValue]
-  rw [getOriginOr_core L h ht]
+/-- Under the wrappers of a chain there is a core. -/
+theorem strip_directOk : ∀ a : Ann, directOk a = true → coreForm (strip a) = true
+  | .newtype a, h => by simpa [strip] using strip_directOk a (by simpa [directOk] using h)
+  | .alias a, h => by simpa [strip] using strip_directOk a (by simpa [directOk] using h)
+  | .base _, _ => rfl
+  | .sub _ _, _ => rfl
+  | .union _ _, h => by simp [directOk, coreForm] at h
+  | .literal _, h => by simp [directOk, coreForm] at h
+  | .final _, h => by simp [directOk, coreForm] at h
+  | .classvar _, h => by simp [directOk, coreForm] at h
+  | .tvarBound _, h => by simp [directOk, coreForm] at h
+  | .tvarConstr _, h => by simp [directOk, coreForm] at h
+  | .tvarFree, h => by simp [directOk, coreForm] at h
+  | .fref _ _, h => by simp [directOk, coreForm] at h
+
+/-- The alias loop of `origin`: everything under the alias is stripped. -/
+theorem originM_alias (v : Ann) :
+    originM L (.alias v) = callableStep L (genericsStep L (getOriginOr L (strip v))) := rfl
 
 theorem originM_direct : ∀ (a : Ann), directOk a = true → ∀ c0, tyOrigin L (strip a) = some c0 →
     originM L a = callableStep L (genericsStep L (.base c0))
@@ -209,9 +238,9 @@ theorem originM_direct : ∀ (a : Ann), directOk a = true → ∀ c0, tyOrigin L
     rw [originM_newtype]
     exact originM_direct a (by simpa [directOk] using hd) c0 (by simpa [strip] using ht)
   | .alias a, hd, c0, ht => by
-    have hc : coreForm a = true := by simpa [directOk] using hd
-    have ht' : tyOrigin L a = some c0 := by simpa [strip, strip_core hc] using ht
-    exact originM_alias_core L hc ht'
+    have hc : coreForm (strip a) = true := strip_directOk a (by simpa [directOk] using hd)
+    have ht' : tyOrigin L (strip a) = some c0 := by simpa [strip] using ht
+    rw [originM_alias, getOriginOr_core L hc ht']
   | .base i, _, c0, ht => originM_core L (a := .base i) rfl (by simpa [strip] using ht)
   | .sub g args, _, c0, ht => originM_core L (a := .sub g args) rfl (by simpa [strip] using ht)
   | .union _ _, hd, _, _ => by simp [directOk, coreForm] at hd
@@ -223,13 +252,20 @@ theorem originM_direct : ∀ (a : Ann), directOk a = true → ∀ c0, tyOrigin L
   | .tvarFree, hd, _, _ => by simp [directOk, coreForm] at hd
   | .fref _ _, hd, _, _ => by simp [directOk, coreForm] at hd
 
-/-- The annotation resolves to the class `c`: a class per the runtime, and not a callable one. -/
+/-- The annotation resolves to the class `c`: a class per the runtime that `origin` does not replace by the special form
+    `typing.Callable` (i.e. not `collections.abc.Callable`, not `type` or another metaclass). -/
 structure ResolvesTo (a : Ann) (c : Nat) : Prop where
   resolved : resolvedClass L a = some c
   isClass : L.isClass c = true
-  notCallable : L.callable c = false
+  ordinaryClass : toTypingCallable L (.base c) = false
 
-/-- **`origin` returns the resolved class** on NewType* ∘ alias? chains over either spelling. -/
+/-- A class that defines `__call__` — and is neither `collections.abc.Callable` nor a metaclass — is ordinary. -/
+theorem ordinary_of_callable_class (hR : rowsOk L = true) {c : Nat} (hc : L.isClass c = true)
+    (hn : c ≠ L.abcCallableId) (hm : L.tri .typeSub c ≠ 1) : toTypingCallable L (.base c) = false := by
+  simp [toTypingCallable, class_inspect L hR hc, hn, hm]
+
+/-- **`origin` returns the resolved class** on every NewType / alias chain (any length, any interleaving) over either
+    spelling. -/
 theorem originM_resolved (hA : adequate L = true) {a : Ann} (hd : directOk a = true) {c : Nat}
     (hr : ResolvesTo L a c) : originM L a = .base c := by
   have hG : gtmOk L = true := by
@@ -241,7 +277,7 @@ theorem originM_resolved (hA : adequate L = true) {a : Ann} (hd : directOk a = t
   | some c0 =>
     simp only [ht, Option.map_some, Option.some.injEq] at hres
     rw [originM_direct L a hd c0 ht, genericsStep_base L hG, hres]
-    simp [callableStep, iscallableM, hr.notCallable]
+    simp [callableStep, hr.ordinaryClass]
 
 
 /-! ## 4. Class-valued predicates built on `origin` agree with the runtime -/
@@ -264,8 +300,8 @@ theorem specSub_resolved {a : Ann} {c : Nat} (hr : ResolvesTo L a c) (X : Target
     specSub L X a = some (L.tri X c == 1) := by
   simp [specSub, hr.resolved, hr.isClass]
 
-/-- **Group A, generic form.**  For every target `X`, every NewType* ∘ alias? chain of ANY length over a base or a
-    subscripted generic in either spelling: `issubclass(origin(a), X)` does not raise and is the runtime's
+/-- **Group A, generic form.**  For every target `X`, every chain of NewTypes and aliases of ANY length in ANY
+    interleaving over a base or a subscripted generic in either spelling: `issubclass(origin(a), X)` does not raise and is the runtime's
     `issubclass(resolved class, X)`. -/
 theorem predA_agrees (hA : adequate L = true) (X : Target) {a : Ann} (hd : directOk a = true) {c : Nat}
     (hr : ResolvesTo L a c) : predA L X a = specSub L X a := by
@@ -372,17 +408,36 @@ theorem predA_never_raises (hA : adequate L = true) (X : Target) {a : Ann} (hd :
   rw [predA_agrees L hA X hd hr, specSub_resolved L hr]; rfl
 
 
-/-! ## 5. Group B (`_safe_issubclass` on the object itself) -/
+/-! ## 5. Group B (`_safe_issubclass(origin(t), X)`) -/
 
-/-- On a class that is its own origin and is not remapped, a Group B predicate is the runtime's answer. -/
-theorem predB_agrees_class (X : Target) {i : Nat} (hc : L.isClass i = true) (ho : L.getOrigin i = none)
-    (hg : L.gtmGet i = none) : some (predB L X (.base i)) = specSub L X (.base i) := by
-  simp [specSub, resolvedClass, strip, tyOrigin, Lattice.originOr, Lattice.gtmOr, ho, hg, hc, predB]
+/-- **Group B, generic form.**  The nine guarded predicates resolve wrappers and generics exactly like the origin-based
+    family: on every NewType / alias chain over either spelling they are the runtime's `issubclass(resolved class, X)`.
+    (They are `Bool`-valued in the model: a TypeError is answered `False`, they never raise.) -/
+theorem predB_agrees (hA : adequate L = true) (X : Target) {a : Ann} (hd : directOk a = true) {c : Nat}
+    (hr : ResolvesTo L a c) : some (predB L X a) = specSub L X a := by
+  rw [specSub_resolved L hr]
+  unfold predB
+  rw [originM_resolved L hA hd hr]
+  rfl
 
-/-- Asked directly, a Group B predicate answers `False` for everything that is not a bare class: NewType and alias
-    wrappers, subscripted generics, … (no `origin`, no resolution). -/
-theorem predB_nonbase (X : Target) {a : Ann} (h : a.isBase = false) : predB L X a = false := by
-  cases a <;> simp_all [predB, Ann.isBase]
+theorem isenumtype_agrees (hA : adequate L = true) {a : Ann} (hd : directOk a = true) {c : Nat}
+    (hr : ResolvesTo L a c) : some (isenumtypeM L a) = specSub L .enum a := predB_agrees L hA .enum hd hr
+theorem istexttype_agrees (hA : adequate L = true) {a : Ann} (hd : directOk a = true) {c : Nat}
+    (hr : ResolvesTo L a c) : some (istexttypeM L a) = specSub L .text a := predB_agrees L hA .text hd hr
+theorem isstringtype_agrees (hA : adequate L = true) {a : Ann} (hd : directOk a = true) {c : Nat}
+    (hr : ResolvesTo L a c) : some (isstringtypeM L a) = specSub L .str a := predB_agrees L hA .str hd hr
+theorem isbytestype_agrees (hA : adequate L = true) {a : Ann} (hd : directOk a = true) {c : Nat}
+    (hr : ResolvesTo L a c) : some (isbytestypeM L a) = specSub L .bytes a := predB_agrees L hA .bytes hd hr
+theorem isnumbertype_agrees (hA : adequate L = true) {a : Ann} (hd : directOk a = true) {c : Nat}
+    (hr : ResolvesTo L a c) : some (isnumbertypeM L a) = specSub L .number a := predB_agrees L hA .number hd hr
+theorem isintegertype_agrees (hA : adequate L = true) {a : Ann} (hd : directOk a = true) {c : Nat}
+    (hr : ResolvesTo L a c) : some (isintegertypeM L a) = specSub L .int a := predB_agrees L hA .int hd hr
+theorem isfloattype_agrees (hA : adequate L = true) {a : Ann} (hd : directOk a = true) {c : Nat}
+    (hr : ResolvesTo L a c) : some (isfloattypeM L a) = specSub L .float a := predB_agrees L hA .float hd hr
+theorem ispatterntype_agrees (hA : adequate L = true) {a : Ann} (hd : directOk a = true) {c : Nat}
+    (hr : ResolvesTo L a c) : some (ispatterntypeM L a) = specSub L .pattern a := predB_agrees L hA .pattern hd hr
+theorem ispathtype_agrees (hA : adequate L = true) {a : Ann} (hd : directOk a = true) {c : Nat}
+    (hr : ResolvesTo L a c) : some (ispathtypeM L a) = specSub L .purepath a := predB_agrees L hA .purepath hd hr
 
 /-! ## 6. `unwrap` -/
 
@@ -398,11 +453,10 @@ def innerOk : Ann → Bool
   | .sub g _ => g != L.finalId && g != L.classVarId
   | _ => true
 
-/-- Legal nestings of the qualifiers.  `ClassVar[X]` with `X` a Literal (or an alias of one) is excluded: there the
-    code does not strip the ClassVar (`unwrap_classvar_literal_witness`). -/
+/-- Legal nestings of the qualifiers: `Final[...]` / `ClassVar[...]` outermost only. -/
 def legal : Ann → Bool
   | .final a => innerOk L a
-  | .classvar a => innerOk L a && !isliteralM L (.classvar a)
+  | .classvar a => innerOk L a
   | a => innerOk L a
 
 /-- `callableStep ∘ genericsStep ∘ getOriginOr`: the tail of `origin` after the wrappers are gone. -/
@@ -491,7 +545,7 @@ theorem tail_base_not (hA : adequate L = true) {i s : Nat} (hs : s ∈ specialId
   rw [genericsStep_base L (adequate_gtm L hA)]
   unfold callableStep
   have := gtmOr_originOr_not_special L hA hs hi
-  by_cases hc : iscallableM L (.base (L.gtmOr (L.originOr i))) = true
+  by_cases hc : toTypingCallable L (.base (L.gtmOr (L.originOr i))) = true
   · simp [hc, Ann.isBaseId, hcs]
   · simp [hc, Ann.isBaseId, this]
 
@@ -524,13 +578,19 @@ theorem tail_not_final (hA : adequate L = true) : ∀ w : Ann, innerOk L w = tru
   | fref l b => rw [tailM_nonbase L (by rfl)]; rfl
 
 
+theorem strip_inner : ∀ a : Ann, innerOk L a = true → innerOk L (strip a) = true
+  | .newtype a, h => by simpa [strip] using strip_inner a (by simpa [innerOk] using h)
+  | .alias a, h => by simpa [strip] using strip_inner a (by simpa [innerOk] using h)
+  | .base _, h => h | .sub _ _, h => h | .union _ _, h => h | .literal _, h => h | .final _, h => h
+  | .classvar _, h => h | .tvarBound _, h => h | .tvarConstr _, h => h | .tvarFree, h => h | .fref _ _, h => h
+
 theorem isfinal_inner (hA : adequate L = true) (a : Ann) (h : innerOk L a = true) : isfinalM L a = false := by
   obtain ⟨hr, hn⟩ := resolve_inner L a h
   unfold isfinalM
   rw [originM_resolve]
   generalize resolveSupertype a = r at hr hn
   cases r with
-  | alias v => exact tail_not_final L hA v (by simpa [innerOk] using hr)
+  | alias v => exact tail_not_final L hA (strip v) (strip_inner L v (by simpa [innerOk] using hr))
   | newtype x => simp [Ann.isNewtype] at hn
   | classvar x => simp [innerOk] at hr
   | final x => simp [innerOk] at hr
@@ -583,8 +643,7 @@ theorem originM_final (hA : adequate L = true) (x : Ann) : originM L (.final x) 
   rw [this, stable_tail L (stable_of L hA).2.2.2.1]
 
 theorem shouldUnwrap_final (hA : adequate L = true) (x : Ann) : shouldUnwrapM L (.final x) = true := by
-  obtain ⟨_, _, _, _, _, _, _, _, hfl, _, _, _⟩ := special_ne L hA
-  simp [shouldUnwrapM, isliteralM, isfinalM, originM_final L hA, Ann.isBaseId, hfl]
+  simp [shouldUnwrapM, isfinalM, originM_final L hA, Ann.isBaseId]
 
 /-- **`unwrap` strips every wrapper** — Final / ClassVar outermost, then NewType / alias / TypeVar-bound layers in any
     interleaving and of any length — and returns the annotation they stand for. -/
@@ -594,11 +653,10 @@ theorem unwrap_strips (hA : adequate L = true) {a : Ann} (h : legal L a = true) 
     simp only [unwrapM, shouldUnwrap_final L hA, if_true, core]
     exact unwrap_inner L hA x (by simpa [legal] using h)
   | classvar x =>
-    simp only [legal, Bool.and_eq_true, Bool.not_eq_true'] at h
     have hs : shouldUnwrapM L (.classvar x) = true := by
-      simp [shouldUnwrapM, h.2, isclassvartypeM, resolveSupertype, isClassVarResolved]
+      simp [shouldUnwrapM, isclassvartypeM, resolveSupertype, isClassVarResolved]
     simp only [unwrapM, hs, if_true, core]
-    exact unwrap_inner L hA x h.1
+    exact unwrap_inner L hA x (by simpa [legal] using h)
   | base i => exact unwrap_inner L hA _ h
   | sub g args => exact unwrap_inner L hA _ h
   | union sp ms => exact unwrap_inner L hA _ h
@@ -678,80 +736,54 @@ theorem predA_unwrapped_agrees (hA : adequate L = true) (X : Target) {a : Ann} (
   rw [unwrap_strips L hA hl]
   exact predA_agrees L hA X (directOk_of_core hk) hr
 
-/-- **All 9 direct predicates after `unwrap`**, when what is wrapped is a plain class. -/
-theorem predB_unwrapped_agrees (hA : adequate L = true) (X : Target) {a : Ann} (hl : legal L a = true) {i : Nat}
-    (hk : core L a = .base i) (hc : L.isClass i = true) (ho : L.getOrigin i = none) (hg : L.gtmGet i = none) :
+/-- **All 9 guarded predicates after `unwrap`.** -/
+theorem predB_unwrapped_agrees (hA : adequate L = true) (X : Target) {a : Ann} (hl : legal L a = true)
+    (hk : coreForm (core L a) = true) {c : Nat} (hr : ResolvesTo L (core L a) c) :
     (unwrapM L a).map (predB L X) = specSub L X (core L a) := by
-  rw [unwrap_strips L hA hl, hk]
-  exact predB_agrees_class L X hc ho hg
+  rw [unwrap_strips L hA hl]
+  exact predB_agrees L hA X (directOk_of_core hk) hr
 
+theorem isenumtype_unwrapped_agrees (hA : adequate L = true) {a : Ann} (hl : legal L a = true)
+    (hk : coreForm (core L a) = true) {c : Nat} (hr : ResolvesTo L (core L a) c) :
+    (unwrapM L a).map (isenumtypeM L) = specSub L .enum (core L a) := predB_unwrapped_agrees L hA .enum hl hk hr
+theorem istexttype_unwrapped_agrees (hA : adequate L = true) {a : Ann} (hl : legal L a = true)
+    (hk : coreForm (core L a) = true) {c : Nat} (hr : ResolvesTo L (core L a) c) :
+    (unwrapM L a).map (istexttypeM L) = specSub L .text (core L a) := predB_unwrapped_agrees L hA .text hl hk hr
+theorem isstringtype_unwrapped_agrees (hA : adequate L = true) {a : Ann} (hl : legal L a = true)
+    (hk : coreForm (core L a) = true) {c : Nat} (hr : ResolvesTo L (core L a) c) :
+    (unwrapM L a).map (isstringtypeM L) = specSub L .str (core L a) := predB_unwrapped_agrees L hA .str hl hk hr
+theorem isbytestype_unwrapped_agrees (hA : adequate L = true) {a : Ann} (hl : legal L a = true)
+    (hk : coreForm (core L a) = true) {c : Nat} (hr : ResolvesTo L (core L a) c) :
+    (unwrapM L a).map (isbytestypeM L) = specSub L .bytes (core L a) := predB_unwrapped_agrees L hA .bytes hl hk hr
+theorem isnumbertype_unwrapped_agrees (hA : adequate L = true) {a : Ann} (hl : legal L a = true)
+    (hk : coreForm (core L a) = true) {c : Nat} (hr : ResolvesTo L (core L a) c) :
+    (unwrapM L a).map (isnumbertypeM L) = specSub L .number (core L a) := predB_unwrapped_agrees L hA .number hl hk hr
+theorem isintegertype_unwrapped_agrees (hA : adequate L = true) {a : Ann} (hl : legal L a = true)
+    (hk : coreForm (core L a) = true) {c : Nat} (hr : ResolvesTo L (core L a) c) :
+    (unwrapM L a).map (isintegertypeM L) = specSub L .int (core L a) := predB_unwrapped_agrees L hA .int hl hk hr
+theorem isfloattype_unwrapped_agrees (hA : adequate L = true) {a : Ann} (hl : legal L a = true)
+    (hk : coreForm (core L a) = true) {c : Nat} (hr : ResolvesTo L (core L a) c) :
+    (unwrapM L a).map (isfloattypeM L) = specSub L .float (core L a) := predB_unwrapped_agrees L hA .float hl hk hr
+theorem ispatterntype_unwrapped_agrees (hA : adequate L = true) {a : Ann} (hl : legal L a = true)
+    (hk : coreForm (core L a) = true) {c : Nat} (hr : ResolvesTo L (core L a) c) :
+    (unwrapM L a).map (ispatterntypeM L) = specSub L .pattern (core L a) := predB_unwrapped_agrees L hA .pattern hl hk hr
+theorem ispathtype_unwrapped_agrees (hA : adequate L = true) {a : Ann} (hl : legal L a = true)
+    (hk : coreForm (core L a) = true) {c : Nat} (hr : ResolvesTo L (core L a) c) :
+    (unwrapM L a).map (ispathtypeM L) = specSub L .purepath (core L a) := predB_unwrapped_agrees L hA .purepath hl hk hr
 
-/-- The nine direct predicates, one by one: on a plain class, and after `unwrap` over any legal nest of wrappers. -/
-theorem isenumtype_agrees {i : Nat} (hc : L.isClass i = true) (ho : L.getOrigin i = none) (hg : L.gtmGet i = none) :
-    some (isenumtypeM L (.base i)) = specSub L .enum (.base i) := predB_agrees_class L .enum hc ho hg
-theorem isenumtype_unwrapped_agrees (hA : adequate L = true) {a : Ann} (hl : legal L a = true) {i : Nat}
-    (hk : core L a = .base i) (hc : L.isClass i = true) (ho : L.getOrigin i = none) (hg : L.gtmGet i = none) :
-    (unwrapM L a).map (isenumtypeM L) = specSub L .enum (core L a) := predB_unwrapped_agrees L hA .enum hl hk hc ho hg
-theorem istexttype_agrees {i : Nat} (hc : L.isClass i = true) (ho : L.getOrigin i = none) (hg : L.gtmGet i = none) :
-    some (istexttypeM L (.base i)) = specSub L .text (.base i) := predB_agrees_class L .text hc ho hg
-theorem istexttype_unwrapped_agrees (hA : adequate L = true) {a : Ann} (hl : legal L a = true) {i : Nat}
-    (hk : core L a = .base i) (hc : L.isClass i = true) (ho : L.getOrigin i = none) (hg : L.gtmGet i = none) :
-    (unwrapM L a).map (istexttypeM L) = specSub L .text (core L a) := predB_unwrapped_agrees L hA .text hl hk hc ho hg
-theorem isstringtype_agrees {i : Nat} (hc : L.isClass i = true) (ho : L.getOrigin i = none) (hg : L.gtmGet i = none) :
-    some (isstringtypeM L (.base i)) = specSub L .str (.base i) := predB_agrees_class L .str hc ho hg
-theorem isstringtype_unwrapped_agrees (hA : adequate L = true) {a : Ann} (hl : legal L a = true) {i : Nat}
-    (hk : core L a = .base i) (hc : L.isClass i = true) (ho : L.getOrigin i = none) (hg : L.gtmGet i = none) :
-    (unwrapM L a).map (isstringtypeM L) = specSub L .str (core L a) := predB_unwrapped_agrees L hA .str hl hk hc ho hg
-theorem isbytestype_agrees {i : Nat} (hc : L.isClass i = true) (ho : L.getOrigin i = none) (hg : L.gtmGet i = none) :
-    some (isbytestypeM L (.base i)) = specSub L .bytes (.base i) := predB_agrees_class L .bytes hc ho hg
-theorem isbytestype_unwrapped_agrees (hA : adequate L = true) {a : Ann} (hl : legal L a = true) {i : Nat}
-    (hk : core L a = .base i) (hc : L.isClass i = true) (ho : L.getOrigin i = none) (hg : L.gtmGet i = none) :
-    (unwrapM L a).map (isbytestypeM L) = specSub L .bytes (core L a) := predB_unwrapped_agrees L hA .bytes hl hk hc ho hg
-theorem isnumbertype_agrees {i : Nat} (hc : L.isClass i = true) (ho : L.getOrigin i = none) (hg : L.gtmGet i = none) :
-    some (isnumbertypeM L (.base i)) = specSub L .number (.base i) := predB_agrees_class L .number hc ho hg
-theorem isnumbertype_unwrapped_agrees (hA : adequate L = true) {a : Ann} (hl : legal L a = true) {i : Nat}
-    (hk : core L a = .base i) (hc : L.isClass i = true) (ho : L.getOrigin i = none) (hg : L.gtmGet i = none) :
-    (unwrapM L a).map (isnumbertypeM L) = specSub L .number (core L a) := predB_unwrapped_agrees L hA .number hl hk hc ho hg
-theorem isintegertype_agrees {i : Nat} (hc : L.isClass i = true) (ho : L.getOrigin i = none) (hg : L.gtmGet i = none) :
-    some (isintegertypeM L (.base i)) = specSub L .int (.base i) := predB_agrees_class L .int hc ho hg
-theorem isintegertype_unwrapped_agrees (hA : adequate L = true) {a : Ann} (hl : legal L a = true) {i : Nat}
-    (hk : core L a = .base i) (hc : L.isClass i = true) (ho : L.getOrigin i = none) (hg : L.gtmGet i = none) :
-    (unwrapM L a).map (isintegertypeM L) = specSub L .int (core L a) := predB_unwrapped_agrees L hA .int hl hk hc ho hg
-theorem isfloattype_agrees {i : Nat} (hc : L.isClass i = true) (ho : L.getOrigin i = none) (hg : L.gtmGet i = none) :
-    some (isfloattypeM L (.base i)) = specSub L .float (.base i) := predB_agrees_class L .float hc ho hg
-theorem isfloattype_unwrapped_agrees (hA : adequate L = true) {a : Ann} (hl : legal L a = true) {i : Nat}
-    (hk : core L a = .base i) (hc : L.isClass i = true) (ho : L.getOrigin i = none) (hg : L.gtmGet i = none) :
-    (unwrapM L a).map (isfloattypeM L) = specSub L .float (core L a) := predB_unwrapped_agrees L hA .float hl hk hc ho hg
-theorem ispatterntype_agrees {i : Nat} (hc : L.isClass i = true) (ho : L.getOrigin i = none) (hg : L.gtmGet i = none) :
-    some (ispatterntypeM L (.base i)) = specSub L .pattern (.base i) := predB_agrees_class L .pattern hc ho hg
-theorem ispatterntype_unwrapped_agrees (hA : adequate L = true) {a : Ann} (hl : legal L a = true) {i : Nat}
-    (hk : core L a = .base i) (hc : L.isClass i = true) (ho : L.getOrigin i = none) (hg : L.gtmGet i = none) :
-    (unwrapM L a).map (ispatterntypeM L) = specSub L .pattern (core L a) := predB_unwrapped_agrees L hA .pattern hl hk hc ho hg
-theorem ispathtype_agrees {i : Nat} (hc : L.isClass i = true) (ho : L.getOrigin i = none) (hg : L.gtmGet i = none) :
-    some (ispathtypeM L (.base i)) = specSub L .purepath (.base i) := predB_agrees_class L .purepath hc ho hg
-theorem ispathtype_unwrapped_agrees (hA : adequate L = true) {a : Ann} (hl : legal L a = true) {i : Nat}
-    (hk : core L a = .base i) (hc : L.isClass i = true) (ho : L.getOrigin i = none) (hg : L.gtmGet i = none) :
-    (unwrapM L a).map (ispathtypeM L) = specSub L .purepath (core L a) := predB_unwrapped_agrees L hA .purepath hl hk hc ho hg
-
-/-- NewType / alias chains only (any interleaving). -/
-def naChain : Ann → Bool
-  | .newtype a => naChain a
-  | .alias a => naChain a
-  | a => coreForm a
-
-theorem strip_eq_core : ∀ a : Ann, naChain a = true → strip a = core L a ∧ coreForm (strip a) = true
-  | .newtype a, h => by simpa [strip, core] using strip_eq_core a (by simpa [naChain] using h)
-  | .alias a, h => by simpa [strip, core] using strip_eq_core a (by simpa [naChain] using h)
+theorem strip_eq_core : ∀ a : Ann, directOk a = true → strip a = core L a ∧ coreForm (strip a) = true
+  | .newtype a, h => by simpa [strip, core] using strip_eq_core a (by simpa [directOk] using h)
+  | .alias a, h => by simpa [strip, core] using strip_eq_core a (by simpa [directOk] using h)
   | .base _, _ => ⟨rfl, rfl⟩
   | .sub _ _, _ => ⟨rfl, rfl⟩
-  | .union _ _, h => by simp [naChain, coreForm] at h
-  | .literal _, h => by simp [naChain, coreForm] at h
-  | .final _, h => by simp [naChain, coreForm] at h
-  | .classvar _, h => by simp [naChain, coreForm] at h
-  | .tvarBound _, h => by simp [naChain, coreForm] at h
-  | .tvarConstr _, h => by simp [naChain, coreForm] at h
-  | .tvarFree, h => by simp [naChain, coreForm] at h
-  | .fref _ _, h => by simp [naChain, coreForm] at h
+  | .union _ _, h => by simp [directOk, coreForm] at h
+  | .literal _, h => by simp [directOk, coreForm] at h
+  | .final _, h => by simp [directOk, coreForm] at h
+  | .classvar _, h => by simp [directOk, coreForm] at h
+  | .tvarBound _, h => by simp [directOk, coreForm] at h
+  | .tvarConstr _, h => by simp [directOk, coreForm] at h
+  | .tvarFree, h => by simp [directOk, coreForm] at h
+  | .fref _ _, h => by simp [directOk, coreForm] at h
 
 theorem strip_idem : ∀ a : Ann, strip (strip a) = strip a
   | .newtype a => by simpa [strip] using strip_idem a
@@ -762,13 +794,13 @@ theorem strip_idem : ∀ a : Ann, strip (strip a) = strip a
 theorem resolvedClass_strip (a : Ann) : resolvedClass L (strip a) = resolvedClass L a := by
   unfold resolvedClass; rw [strip_idem]
 
-/-- Every NewType / alias chain — `Alias(Alias(X))`, `Alias(NewType(X))`, … included — once unwrapped. -/
-theorem predA_unwrapped_chain (hA : adequate L = true) (X : Target) {a : Ann} (hn : naChain a = true)
+/-- Every NewType / alias chain once unwrapped: the same answer as asked directly (`predA_agrees`). -/
+theorem predA_unwrapped_chain (hA : adequate L = true) (X : Target) {a : Ann} (hn : directOk a = true)
     (hl : legal L a = true) {c : Nat} (hr : ResolvesTo L a c) :
     (unwrapM L a).bind (predA L X) = specSub L X a := by
   obtain ⟨he, hc⟩ := strip_eq_core L a hn
   have hr' : ResolvesTo L (core L a) c :=
-    ⟨by rw [← he, resolvedClass_strip]; exact hr.resolved, hr.isClass, hr.notCallable⟩
+    ⟨by rw [← he, resolvedClass_strip]; exact hr.resolved, hr.isClass, hr.ordinaryClass⟩
   rw [predA_unwrapped_agrees L hA X hl (by rw [← he]; exact hc) hr']
   rw [specSub_resolved L hr', specSub_resolved L hr]
 
@@ -822,7 +854,7 @@ theorem coreForm_erase (a : Ann) : coreForm (erase L a) = coreForm a := by
 
 theorem directOk_erase : ∀ a : Ann, directOk (erase L a) = directOk a
   | .newtype a => by simpa [erase, directOk] using directOk_erase a
-  | .alias a => by simp [erase, directOk, coreForm_erase]
+  | .alias a => by simpa [erase, directOk] using directOk_erase a
   | .base _ => by simp [erase, directOk, coreForm]
   | .sub _ _ => by simp [erase, directOk, coreForm]
   | .union sp _ => by cases sp <;> simp [erase, directOk, coreForm]
@@ -836,10 +868,10 @@ theorem directOk_erase : ∀ a : Ann, directOk (erase L a) = directOk a
 
 theorem resolvesTo_erase (hA : adequate L = true) {a : Ann} {c : Nat} (hr : ResolvesTo L a c) :
     ResolvesTo L (erase L a) c :=
-  ⟨by rw [resolvedClass_erase L hA]; exact hr.resolved, hr.isClass, hr.notCallable⟩
+  ⟨by rw [resolvedClass_erase L hA]; exact hr.resolved, hr.isClass, hr.ordinaryClass⟩
 
 /-- `origin` gives the same class for `typing.List[int]` and `list[int]`, `typing.Sequence[T]` and
-    `collections.abc.Sequence[T]`, under any NewType* ∘ alias? chain. -/
+    `collections.abc.Sequence[T]`, under any chain of NewTypes and aliases. -/
 theorem originM_erase (hA : adequate L = true) {a : Ann} (hd : directOk a = true) {c : Nat} (hr : ResolvesTo L a c) :
     originM L (erase L a) = originM L a := by
   rw [originM_resolved L hA hd hr,
@@ -862,17 +894,10 @@ theorem ismappingtype_spelling_invariant (hA : adequate L = true) {a : Ann} (hd 
     (hr : ResolvesTo L a c) : ismappingtypeM L (erase L a) = ismappingtypeM L a := by
   unfold ismappingtypeM; rw [originM_erase L hA hd hr]
 
-theorem erase_isBase (a : Ann) : (erase L a).isBase = a.isBase := by
-  cases a with
-  | union sp ms => cases sp <;> simp [erase, Ann.isBase]
-  | _ => simp [erase, Ann.isBase]
-
-/-- **Spelling invariance, Group B** (every annotation): bare objects are untouched by the erasure and everything else
-    is answered `False`. -/
-theorem predB_spelling_invariant (X : Target) (a : Ann) : predB L X (erase L a) = predB L X a := by
-  cases h : a.isBase with
-  | true => cases a <;> simp_all [Ann.isBase, erase]
-  | false => rw [predB_nonbase L X h, predB_nonbase L X (by rw [erase_isBase]; exact h)]
+/-- **Spelling invariance, Group B**: functions of `origin(a)` as well. -/
+theorem predB_spelling_invariant (hA : adequate L = true) (X : Target) {a : Ann} (hd : directOk a = true) {c : Nat}
+    (hr : ResolvesTo L a c) : predB L X (erase L a) = predB L X a := by
+  unfold predB; rw [originM_erase L hA hd hr]
 
 /-! ## 9. `origin()` of a collection annotation is a concrete instantiable class of that kind -/
 
@@ -886,7 +911,8 @@ def instantiableM : Ann → Bool
 /-- … proved for the ABCs GENERIC_TYPE_MAP maps and for classes that are concrete themselves. -/
 theorem origin_instantiable (hA : adequate L = true) {a : Ann} (hd : directOk a = true) {c0 : Nat}
     (ht : tyOrigin L (strip a) = some c0)
-    (h : (L.gtmGet c0).isSome = true ∨ (L.flag (·.instantiable) c0 = true ∧ L.callable c0 = false)) :
+    (h : (L.gtmGet c0).isSome = true ∨
+      (L.flag (·.instantiable) c0 = true ∧ toTypingCallable L (.base c0) = false)) :
     instantiableM L (originM L a) = true := by
   rw [originM_direct L a hd c0 ht, genericsStep_base L (adequate_gtm L hA)]
   cases hg : L.gtmGet c0 with
@@ -894,11 +920,11 @@ theorem origin_instantiable (hA : adequate L = true) {a : Ann} (hd : directOk a 
     obtain ⟨e, he, _, hv⟩ := gtmGet_mem L hg
     have hval := (gtm_entry L (adequate_gtm L hA) he).2.1
     simp only [gtmValueOk, hv, Bool.and_eq_true, Bool.not_eq_true'] at hval
-    simp [Lattice.gtmOr, hg, callableStep, iscallableM, hval.2, instantiableM, hval.1.1.1.1.2]
+    simp [Lattice.gtmOr, hg, callableStep, toTypingCallable, hval.2, instantiableM, hval.1.1.1.1.2]
   | none =>
     rcases h with h | h
     · simp [hg] at h
-    · simp [Lattice.gtmOr, hg, callableStep, iscallableM, h.2, instantiableM, h.1]
+    · simp [Lattice.gtmOr, hg, callableStep, h.2, instantiableM, h.1]
 
 /-- A mapped ABC goes to a class of its own kind: `issubclass(origin(a), ABC)` per the runtime. -/
 theorem origin_mapped_same_kind (hA : adequate L = true) {a : Ann} (hd : directOk a = true) {c0 v : Nat}
@@ -909,7 +935,7 @@ theorem origin_mapped_same_kind (hA : adequate L = true) {a : Ann} (hd : directO
   simp only [gtmValueOk, hv, Bool.and_eq_true, Bool.not_eq_true'] at hval
   refine ⟨?_, e, he, hk, hv, hval.1.1.2⟩
   rw [originM_direct L a hd c0 ht, genericsStep_base L (adequate_gtm L hA)]
-  simp [Lattice.gtmOr, hg, callableStep, iscallableM, hval.2]
+  simp [Lattice.gtmOr, hg, callableStep, toTypingCallable, hval.2]
 
 
 /-! ## 10. Special-form predicates: syntactic specification -/
@@ -952,7 +978,7 @@ theorem originM_literal (hA : adequate L = true) (h : Bool) : originM L (.litera
   stable_tail L (stable_of L hA).2.2.1
 
 theorem originM_nonbase_fix {a : Ann} (h1 : resolveSupertype a = a) (h2 : classVarArg L a = a)
-    (h3 : aliasValue a = a) (h4 : getOriginOr L a = a) (h5 : a.isBase = false) : originM L a = a := by
+    (h3 : aliasLoop a = a) (h4 : getOriginOr L a = a) (h5 : a.isBase = false) : originM L a = a := by
   unfold originM
   rw [h1, h2, h3, h4, genericsStep_nonbase L h5, callableStep_nonbase L h5]
 
@@ -1499,42 +1525,32 @@ abbrev G : Lattice := Typelib.Gen.lattice
 open Typelib.Gen
 
 /-- Every catalogue object is ordinary (no class is mistaken for a Union / Optional / Literal / Final by its name or by
-    what `origin` makes of it) — except the special forms themselves and the callable classes (`type`, classes with
-    `__call__`), which `origin` turns into `typing.Callable`. -/
+    what `origin` makes of it) — except the special forms themselves. -/
 theorem lattice_ordinary :
-    (List.range G.rows.length).all (fun i =>
-      ordinaryId G i || (specialIds G).contains i || G.callable (G.gtmOr (G.originOr i))) = true := by
+    (List.range G.rows.length).all (fun i => ordinaryId G i || (specialIds G).contains i) = true := by
   decide +kernel
 
-/-- `Alias(Alias(date))`, `Alias(NewType(date))`: `origin` resolves one alias level only and never looks for NewTypes
-    below an alias — the origin-based predicates raise TypeError where the runtime says True. -/
-theorem alias_chain_raises_witness :
-    isdatetypeM G (.alias (.alias (.base Id.i_datetime_date))) = none ∧
-    isdatetypeM G (.alias (.newtype (.base Id.i_datetime_date))) = none ∧
+/-- `Alias(Alias(date))`, `Alias(NewType(date))`, `NewType(Alias(NewType(Alias(date))))`: resolved, asked directly. -/
+theorem alias_chain_resolved_example :
+    isdatetypeM G (.alias (.alias (.base Id.i_datetime_date))) = some true ∧
+    isdatetypeM G (.alias (.newtype (.base Id.i_datetime_date))) = some true ∧
+    isdatetypeM G (.newtype (.alias (.newtype (.alias (.base Id.i_datetime_date))))) = some true ∧
     specSub G .date (.alias (.alias (.base Id.i_datetime_date))) = some true ∧
-    specSub G .date (.alias (.newtype (.base Id.i_datetime_date))) = some true ∧
-    (unwrapM G (.alias (.alias (.base Id.i_datetime_date)))).bind (isdatetypeM G) = some true := by
+    directOk (.newtype (.alias (.newtype (.alias (.base Id.i_datetime_date))))) = true := by
   decide +kernel
 
-/-- The full statement of `predA_agrees` (every NewType / alias interleaving) is false on the code as it stands. -/
-theorem predA_agrees_full_false :
-    ¬ (∀ (a : Ann) (c : Nat), ResolvesTo G a c → isdatetypeM G a = specSub G .date a) := by
-  intro h
-  have := h (.alias (.alias (.base Id.i_datetime_date))) Id.i_datetime_date
-    ⟨by decide +kernel, by decide +kernel, by decide +kernel⟩
-  revert this
-  decide +kernel
-
-/-- Asked directly, the `_safe_issubclass` predicates do not resolve anything: `isstringtype(NewType("S", str))`,
-    `ispatterntype(re.Pattern[str])`, `ispatterntype(typing.Pattern)`, `isstringtype(Hashable)` are all False. -/
-theorem direct_predicates_witness :
-    isstringtypeM G (.newtype (.base Id.i_str)) = false ∧
+/-- The guarded predicates resolve wrappers, generics, bare typing aliases and mapped ABCs:
+    `isstringtype(NewType("S", str))`, `ispatterntype(re.Pattern[str])`, `ispatterntype(typing.Pattern)`,
+    `isstringtype(Hashable)` (its origin is `str`). -/
+theorem direct_predicates_resolved_example :
+    isstringtypeM G (.newtype (.base Id.i_str)) = true ∧
     specSub G .str (.newtype (.base Id.i_str)) = some true ∧
-    ispatterntypeM G (.sub Id.i_re_Pattern [.base Id.i_str]) = false ∧
-    specSub G .pattern (.sub Id.i_re_Pattern [.base Id.i_str]) = some true ∧
-    ispatterntypeM G (.base Id.i_typing_Pattern) = false ∧
-    specSub G .pattern (.base Id.i_typing_Pattern) = some true ∧
-    (unwrapM G (.newtype (.base Id.i_str))).map (isstringtypeM G) = some true := by
+    ispatterntypeM G (.sub Id.i_re_Pattern [.base Id.i_str]) = true ∧
+    ispatterntypeM G (.sub Id.i_typing_Pattern [.base Id.i_str]) = true ∧
+    ispatterntypeM G (.base Id.i_typing_Pattern) = true ∧
+    isstringtypeM G (.base Id.i_typing_Hashable) = true ∧
+    isstringtypeM G (.alias (.alias (.newtype (.base Id.i_user_MyStr)))) = true ∧
+    isstringtypeM G (.union .optional [.base Id.i_str]) = false := by
   decide +kernel
 
 /-- `issequencetype(dict)` is True, `issequencetype(OrderedDict)` is False: neither Sequence nor Collection. -/
@@ -1546,12 +1562,16 @@ theorem issequencetype_disagrees_witness :
     G.tri .sequence Id.i_dict = 0 := by
   decide +kernel
 
-/-- A class that defines `__call__`: `origin` answers `typing.Callable`, the predicates raise. -/
-theorem callable_class_witness :
-    G.isClass Id.i_user_CallableCls = true ∧
-    (originM G (.base Id.i_user_CallableCls)).isBaseId G.callableId = true ∧
-    isdatetypeM G (.base Id.i_user_CallableCls) = none ∧
-    isunresolvableM G (.base Id.i_user_CallableCls) = true := by
+/-- A class that defines `__call__` is its own origin; `type`, metaclasses and `Callable[...]` are `typing.Callable`. -/
+theorem callable_class_example :
+    G.isClass Id.i_user_CallableCls = true ∧ G.callable Id.i_user_CallableCls = true ∧
+    toTypingCallable G (.base Id.i_user_CallableCls) = false ∧
+    (originM G (.base Id.i_user_CallableCls)).isBaseId Id.i_user_CallableCls = true ∧
+    isdatetypeM G (.base Id.i_user_CallableCls) = some false ∧
+    isunresolvableM G (.base Id.i_user_CallableCls) = false ∧
+    (originM G (.sub Id.i_type [.base Id.i_int])).isBaseId G.callableId = true ∧
+    (originM G (.base Id.i_enum_EnumType)).isBaseId G.callableId = true ∧
+    (originM G (.sub Id.i_collections_abc_Callable [.base Id.i_int, .base Id.i_str])).isBaseId G.callableId = true := by
   decide +kernel
 
 /-- `origin(Iterator[int])` is the abstract `collections.abc.Iterator`; likewise `typing.ByteString` (a Collection). -/
@@ -1578,10 +1598,16 @@ theorem issubscriptedgeneric_pipe_witness :
     issubscriptedgenericM G (.fref false true) = true := by
   decide +kernel
 
-/-- `unwrap(ClassVar[Literal[1]])` keeps the ClassVar (`Final[Literal[1]]` loses the Final). -/
-theorem unwrap_classvar_literal_witness :
-    (unwrapM G (.classvar (.literal false))).map isWrapper = some true ∧
+/-- `unwrap` strips ClassVar and Final uniformly, also over a Literal (or an alias of one). -/
+theorem unwrap_qualified_literal_example :
+    legal G (.classvar (.literal false)) = true ∧
+    (unwrapM G (.classvar (.literal false))).map isWrapper = some false ∧
     (unwrapM G (.final (.literal false))).map isWrapper = some false ∧
+    (unwrapM G (.classvar (.alias (.literal true)))).map isWrapper = some false := by
+  decide +kernel
+
+/-- `origin` looks through ClassVar: `isuniontype(ClassVar[Optional[int]])` is True, `isoptionaltype` is False. -/
+theorem classvar_optional_witness :
     isuniontypeM G (.classvar (.union .optional [.base Id.i_int])) = true ∧
     isoptionaltypeM G (.classvar (.union .optional [.base Id.i_int])) = some false := by
   decide +kernel
